@@ -145,6 +145,30 @@ Theorem C02_coordNum_pairlist : forall r0 r0v en ed tol cell g1 g2,
 Proof. intros. split; [apply coordnum_pairlist_exact | intros; apply coordnum_pairlist_le; assumption]. Qed.
 Print Assumptions C02_coordNum_pairlist.
 
+(* the pair list as state over steps and run boundaries (pl_step: rebuilt when the RELATIVE step is a multiple of
+   pairListFrequency, used as it is otherwise; pl_session: every run starts at relative step 0 with whatever list the
+   previous run left, also garbage).  (1) at every rebuild step, in particular at the first step of every run, the value
+   is the full sum for the CURRENT coordinates whatever the list held; (2) at every step it is at most the full sum (only
+   pairs beyond the margin at the last rebuild can be missing); (3) while the atoms do not move it stays the full sum *)
+Theorem C02_coordNum_pairlist_runs : forall freq r0 r0v en ed tol cell,
+  (forall st rel (frames : list (list atomR * list atomR)) k fr, nth_error frames k = Some fr -> ((rel + Z.of_nat k) mod freq = 0)%Z ->
+     nth_error (fst (pl_run Rops freq r0 r0v en ed tol cell st rel frames)) k =
+     Some (cv_coordnum Rops r0 r0v en ed tol cell (fst fr) (snd fr))) /\
+  (forall st (runs : list (list (list atomR * list atomR))) j rn fr, nth_error runs j = Some rn -> nth_error rn 0 = Some fr ->
+     exists vs, nth_error (pl_session Rops freq r0 r0v en ed tol cell st runs) j = Some vs /\
+                nth_error vs 0 = Some (cv_coordnum Rops r0 r0v en ed tol cell (fst fr) (snd fr))) /\
+  (forall npairs st rel (frames : list (list atomR * list atomR)), length st = npairs ->
+     Forall (fun fr => length (all_pairs (fst fr) (snd fr)) = npairs) frames ->
+     Forall2 (fun v fr => v <= cv_coordnum Rops r0 r0v en ed tol cell (fst fr) (snd fr))
+             (fst (pl_run Rops freq r0 r0v en ed tol cell st rel frames)) frames) /\
+  (forall fr st rel n, 0 <= tol -> (st = pairlist_build Rops r0 r0v en ed tol cell (fst fr) (snd fr) \/ (rel mod freq = 0)%Z) ->
+     fst (pl_run Rops freq r0 r0v en ed tol cell st rel (repeat fr n)) =
+     repeat (cv_coordnum Rops r0 r0v en ed tol cell (fst fr) (snd fr)) n).
+Proof.
+  intros. split; [apply pl_run_rebuild | split; [apply pl_session_first | split; [apply pl_run_le | apply pl_run_static]]].
+Qed.
+Print Assumptions C02_coordNum_pairlist_runs.
+
 (* non-vacuity: a unit quaternion; an optimal quaternion exists for the one-pair list of C02_example_decomposition;
    a rotation about z *)
 Example C02_example_fit : qnorm2 (0, 0, 0, 1) = 1 /\ is_optimal (1, 0, 0, 0) [((1, 0, 0), (1, 0, 0))] /\
